@@ -38,17 +38,13 @@ def gen_key():
     need(lit("addIfNotFound( StylesheetExecutionContext& executionContext, MutableNodeRefList& theNodeList, XalanNode* theNode) "
              "{ theNodeList.addNodeInDocOrder(theNode, executionContext); }"), _norm(kt), "addIfNotFound = addNodeInDocOrder")
     pk = _norm(function_body(kt, r"KeyTable::processKeyDeclaration\s*\(", "processKeyDeclaration"))
-    # context node list of the use expression: empty (position()/last() = 0, finding K-C15-2) or just the node
-    tail = ("if(xuse->getType() != XObject::eTypeNodeSet) { @ANY@ addIfNotFound( executionContext, "
-            "theKeys[*kd.getQName()][xuse->str(executionContext)], testNode); }")
-    if re.search(lit("const XObjectPtr xuse(kd.getUse()->execute(testNode, resolver, theEmptyList, executionContext)); " + tail), pk):
-        singleton = False
-    elif re.search(lit("BorrowReturnMutableNodeRefList theContextNodeList(executionContext); theContextNodeList->addNode(testNode); "
-                       "const XObjectPtr xuse(kd.getUse()->execute(testNode, resolver, *theContextNodeList, executionContext)); " + tail), pk):
-        singleton = True
-    else:
-        raise AnchorError("processKeyDeclaration: evaluation of the use expression / non-node-set use value converted to a string: neither recognised shape")
-    facts["use_context_singleton"] = singleton
+    # context node list of the use expression: just the tested node (XSLT 12.2; former finding K-C15-2)
+    need(lit("BorrowReturnMutableNodeRefList theContextNodeList(executionContext); theContextNodeList->addNode(testNode); "
+             "const XObjectPtr xuse(kd.getUse()->execute(testNode, resolver, *theContextNodeList, executionContext)); "
+             "if(xuse->getType() != XObject::eTypeNodeSet) { @ANY@ addIfNotFound( executionContext, "
+             "theKeys[*kd.getQName()][xuse->str(executionContext)], testNode); }"),
+         pk, "processKeyDeclaration: use evaluated with the one-node context list; non-node-set use value converted to a string")
+    facts["use_context_singleton"] = True
     need(lit("const NodeRefListBase::size_type nUseValues = nl.getLength();") + ".*?" +
          lit("for (NodeRefListBase::size_type i = 0; i < nUseValues; ++i) {") + ".*?" +
          lit("DOMServices::getNodeData(*nl.item(i), executionContext, nodeData);") + ".*?" +
